@@ -87,6 +87,28 @@ Theorem C11_input_after_char : forall i o p wr nat_ l,
 Proof. exact input_after_char. Qed.
 Print Assumptions C11_input_after_char.
 
+(* (5) non-finite values and signed zeros with a floating-point output type:
+   no rounding, clipping or top patch applies, and +inf -> +inf, -inf -> -inf,
+   NaN -> NaN (payload aside: the model has one NaN), -0.0 -> -0.0; the caller's
+   buffer is not written.  (The open finding float64-to-float32-overflows-to-inf
+   concerns FINITE float64 values beyond the float32 range.) *)
+Theorem C11_float_output_preserves_nonfinite : forall i o x,
+  is_int i = false -> is_int o = false -> special_float x = true ->
+  round_flag i o = false /\ clip_flag i o = false /\ saturate_top i o = false /\
+  convert_scalar i o (NF x) = NF x /\
+  forall p wr nat_ l, snd (convert i o p wr nat_ l) = l.
+Proof. exact float_output_preserves_nonfinite. Qed.
+Print Assumptions C11_float_output_preserves_nonfinite.
+
+Example C11_float_output_nonfinite_example :
+  convert_scalar F64 F32 (NF (S754_infinity false)) = NF (S754_infinity false) /\
+  convert_scalar F64 F32 (NF (S754_infinity true)) = NF (S754_infinity true) /\
+  convert_scalar F32 F32 (NF S754_nan) = NF S754_nan /\
+  convert_scalar F64 F32 (NF (S754_zero true)) = NF (S754_zero true) /\
+  num_encode F32 (convert_scalar F64 F32 (num_decode F64 9218868437227405312)) = 2139095040 /\
+  num_encode F32 (convert_scalar F64 F32 (num_decode F64 9223372036854775808)) = 2147483648.
+Proof. exact float_output_nonfinite_example. Qed.
+
 (* non-vacuity *)
 Example C11_examples :
   convert_scalar I16 U8 (NI (-300)) = NI 0 /\
